@@ -1194,9 +1194,13 @@ fn run_inner(args: &Args, out: &mut Out) {
                 // the follower is written `d<hex>` so that an empty one is not an empty field
                 let nm = f.get(1).and_then(|h| unhex(h)).and_then(|b| String::from_utf8(b).ok());
                 let dl = f.get(2).and_then(|h| h.strip_prefix('d')).and_then(|h| if h.is_empty() { Some(Vec::new()) } else { unhex(h) }).and_then(|b| String::from_utf8(b).ok());
-                match (nm, dl) {
-                    (Some(nm), Some(dl)) => {
-                        let (obs, orc) = numx::run_num(&nm, &dl, &mut hist);
+                let pf = match f.get(3) {
+                    None => Some(String::new()),
+                    Some(h) => h.strip_prefix('p').and_then(|h| unhex(h)).and_then(|b| String::from_utf8(b).ok()),
+                };
+                match (nm, dl, pf) {
+                    (Some(nm), Some(dl), Some(pf)) => {
+                        let (obs, orc) = numx::run_num(&nm, &dl, &pf, &mut hist);
                         out.case(&line, &obs, &orc);
                     }
                     _ => out.case(&line, "", "SKIP:bad request"),
